@@ -133,7 +133,7 @@ class Module:
                 self._index_funcs_nested(node, qn + '.', f)
 
     # -- resolution ---------------------------------------------------------
-    def dotted(self, expr: ast.AST) -> str | None:
+    def dotted(self, expr: ast.AST, _depth: int = 0) -> str | None:
         """Resolve a Name / Attribute chain to a dotted name through the import
         aliases of this module ('np.log' -> 'numpy.log')."""
         parts = []
@@ -144,8 +144,40 @@ class Module:
         if not isinstance(cur, ast.Name):
             return None
         head = cur.id
+        # a module-level alias of an imported / dotted name:  HyperLogLog = counting_ultiloglog.HyperLogLogWCache
+        if head not in self.imports and head not in self.funcs and head not in self.classes and _depth < 4:
+            vs = self.assigns.get(head, [])
+            if len(vs) == 1 and isinstance(vs[0], (ast.Name, ast.Attribute)) and not self.rebinds_global(head):
+                base = self.dotted(vs[0], _depth + 1)
+                if base is not None and base.split('.')[0] in {v.split('.')[0] for v in self.imports.values()} | {self.name.split('.')[0]}:
+                    return self._canonical('.'.join([base] + list(reversed(parts))))
         parts.append(self.imports.get(head, head if head not in self.funcs and head not in self.classes else f'{self.name}.{head}'))
-        return '.'.join(reversed(parts))
+        return self._canonical('.'.join(reversed(parts)))
+
+    def _canonical(self, dotted: str) -> str:
+        """follow re-exports inside the package: a name imported into a package module from another one is that other module's name"""
+        mods = getattr(self.repo, 'modules', None)
+        if not mods or not dotted.startswith(PKG + '.'):
+            return dotted
+        seen = set()
+        while dotted not in seen:
+            seen.add(dotted)
+            parts = dotted.split('.')
+            for i in range(len(parts) - 1, 0, -1):
+                mn = '.'.join(parts[:i])
+                m2 = mods.get(mn)
+                if m2 is None:
+                    continue
+                head = parts[i]
+                if head in m2.funcs or head in m2.classes:
+                    return dotted
+                if head in m2.imports and m2.imports[head] != '.'.join(parts[:i + 1]):
+                    dotted = '.'.join([m2.imports[head]] + parts[i + 1:])
+                    break
+                return dotted
+            else:
+                return dotted
+        return dotted
 
     def rebinds_global(self, name: str) -> bool:
         """some function declares `global name` (the module-level binding is not a constant)"""
@@ -543,6 +575,9 @@ class Repo:
                 f = m.funcs.get(qualname)
                 # nested helpers and methods are looked up under their own qualified name; expanded helpers count for their caller
                 base = VOCAB.get(mn, {}).get(qualname)
+                if f is not None and base is None and mn in VOCAB:
+                    # a function the confirmed tree did not have (and that could not be expanded at its call sites): shape recognisers abstain
+                    return {'<function not in the confirmed tree>'}
                 if f is None or base is None:
                     return set()
                 new = func_vocabulary(f.node) - set(base)
